@@ -352,6 +352,36 @@ impl CommandParser {
 //@@ body
 //@@ end
 
+//@@ unit parse_del fn src/storage/commands/executor.rs CommandParser::parse_del
+//@@   rewrite RT "let mut keys = Vec::new();" "let mut keys: Vec<Vec<u8>> = Vec::new();"
+//@@   loop 0
+//@@|     invariant 1 <= i <= frames@.len(), keys@.len() == i - 1, forall|j: int| 1 <= j < i ==> (#[trigger] frames@[j] matches RespFrame::BulkString(Some(_))),
+//@@|         forall|j: int| 0 <= j < i - 1 ==> keys@[j] == arg_vec(frames@, j + 1)->Some_0,
+//@@   afterloop 0
+//@@|     proof { assert(keys@ =~= args_from(frames@, 1)); }
+    fn parse_del(frames: &[RespFrame]) -> (r: Result<StringCommand>)
+        ensures
+            (frames@.len() < 2 || !all_bulk(frames@, 1)) ==> r is Err,
+            // every argument a script can pass is a bulk string: the keys are handed on in order, as often as they are named
+            frames@.len() >= 2 && all_bulk(frames@, 1) ==> (r matches Ok(StringCommand::Del { keys }) && keys@ == args_from(frames@, 1)),
+//@@ body
+//@@ end
+
+//@@ unit parse_exists fn src/storage/commands/executor.rs CommandParser::parse_exists
+//@@   rewrite RT "let mut keys = Vec::new();" "let mut keys: Vec<Vec<u8>> = Vec::new();"
+//@@   loop 0
+//@@|     invariant 1 <= i <= frames@.len(), keys@.len() == i - 1, forall|j: int| 1 <= j < i ==> (#[trigger] frames@[j] matches RespFrame::BulkString(Some(_))),
+//@@|         forall|j: int| 0 <= j < i - 1 ==> keys@[j] == arg_vec(frames@, j + 1)->Some_0,
+//@@   afterloop 0
+//@@|     proof { assert(keys@ =~= args_from(frames@, 1)); }
+    fn parse_exists(frames: &[RespFrame]) -> (r: Result<KeyCommand>)
+        ensures
+            (frames@.len() < 2 || !all_bulk(frames@, 1)) ==> r is Err,
+            // every argument a script can pass is a bulk string: the keys are handed on in order, as often as they are named
+            frames@.len() >= 2 && all_bulk(frames@, 1) ==> (r matches Ok(KeyCommand::Exists { keys }) && keys@ == args_from(frames@, 1)),
+//@@ body
+//@@ end
+
 //@@ unit parse_set fn src/storage/commands/executor.rs CommandParser::parse_set
 //@@   rewrite R1
 //@@   rewrite R3
